@@ -13,6 +13,7 @@ import (
 	"fmt"
 	"runtime/debug"
 	"testing"
+	"time"
 
 	"github.com/AdguardTeam/golibs/syncutil"
 
@@ -32,6 +33,11 @@ func run(rc *kernel.RunCtx) {
 	tp := rc.Tape
 	k := kernel.NewKernel(tp)
 	k.KeepLog = rc.KeepLog
+	if tp.Bool(1, 300) {
+		runOnceManyKeys(rc, k)
+
+		return
+	}
 	switch tp.Choose(5) {
 	case 0, 1:
 		runOnce(rc, k)
@@ -187,6 +193,42 @@ func runOnce(rc *kernel.RunCtx, k *kernel.Kernel) {
 	rc.Adopt(k)
 }
 
+// runOnceManyKeys is a sequential history over one OnceConstructor instance
+// with many keys (no scheduler: the hooks are no-ops outside Kernel.Run): state
+// must not leak from the construction of one key into a much later Get of
+// another.
+func runOnceManyKeys(rc *kernel.RunCtx, k *kernel.Kernel) {
+	tp := rc.Tape
+	n := tp.Range(1, 10000)
+	rc.Stats.Probe("once-many-keys")
+	counts := make([]int, n)
+	oc := syncutil.NewOnceConstructor(func(key int) any {
+		counts[key]++
+
+		return &val{key: key, id: counts[key]}
+	})
+	first := make([]any, n)
+	for key := 0; key < n; key++ {
+		first[key] = oc.Get(key)
+	}
+	for i := 0; i < 64; i++ {
+		key := tp.Choose(n)
+		if i == 0 {
+			key = 0
+		}
+		v := oc.Get(key)
+		if counts[key] != 1 || v != first[key] {
+			k.Fail("constructed-twice", "OnceConstructor.Get", "after "+kernel.Itoa(n)+" keys had been constructed on one instance, Get("+
+				kernel.Itoa(key)+") ran the constructor "+kernel.Itoa(counts[key])+" times or returned a different result")
+
+			break
+		}
+	}
+	k.Logf("once: ", kernel.Itoa(n), " keys sequentially")
+	rc.Adopt(k)
+	rc.NonTrivial = false
+}
+
 func safeGet(oc *syncutil.OnceConstructor[int, any], key int) (v any, pv any, stack string) {
 	defer func() {
 		if r := recover(); r != nil {
@@ -246,9 +288,18 @@ func runSema(rc *kernel.RunCtx, k *kernel.Kernel, misuse bool) {
 	ctxs := make([][]ctxPair, nTasks)
 	curCtx := make([]int, nTasks)
 	useCause := tp.Bool(1, 3)
+	useDeadline := !useCause && tp.Bool(1, 2)
 	cause := errors.New("custom cancellation cause")
 	for i := range ctxs {
 		for j := 0; j <= nOps[i]; j++ {
+			if useDeadline {
+				// A context with a far deadline (simulated time never gets
+				// there) that is cancelled early.
+				c, cf := context.WithTimeout(context.Background(), time.Hour)
+				ctxs[i] = append(ctxs[i], ctxPair{ctx: c, cancel: cf})
+
+				continue
+			}
 			if useCause {
 				// Cancelled with a cause: ctx.Err() is still context.Canceled.
 				c, cf := context.WithCancelCause(context.Background())
